@@ -19,6 +19,7 @@ import (
 	"strings"
 	"sync"
 	"testing"
+	"testing/cryptotest"
 	"time"
 
 	"github.com/google/uuid"
@@ -48,6 +49,9 @@ type World struct {
 	logbuf bytes.Buffer
 	seq    int
 	hooks  []func()
+	// OnlyRules, when set, keeps only the violations whose rule starts with it (a scenario of one
+	// property reusing the machinery of another one's)
+	OnlyRules string
 }
 
 // AfterEachStep registers an invariant hook that runs on the scheduler goroutine between
@@ -57,6 +61,9 @@ func (w *World) AfterEachStep(f func()) { w.hooks = append(w.hooks, f) }
 
 // Violate records an oracle failure.
 func (w *World) Violate(rule, sig, format string, args ...interface{}) {
+	if w.OnlyRules != "" && !strings.HasPrefix(rule, w.OnlyRules) {
+		return
+	}
 	if simrt.Stopping() {
 		// the run is being torn down: leftover oracle code sees a world that is being dismantled
 		return
@@ -269,6 +276,9 @@ func Execute(t *testing.T, tape *simrt.Tape, tier string, keepLog bool, maxSim t
 	tlsClientMax12 = tape.Draw(3) == 1
 	// swarm: knobs of the listeners and of the TLS material that no property is about, so that
 	// no verdict silently depends on one value of them
+	// the bytes of every TLS handshake of this run (randoms, key shares) come from a seeded stream:
+	// what depends on them - a transport that mistreats particular byte values - replays exactly
+	cryptotest.SetGlobalRandom(t, uint64(tape.Draw(1<<20)))
 	swarm = swarmKnobs{ConnBuf: []int{0, 0, 1, 8}[tape.Draw(4)], WSCompress: tape.Draw(4) == 1, CertVia: []int{0, 0, 1, 2}[tape.Draw(4)]}
 	res := simrt.Run(t, cfg, func() {
 		// package-level state of the library (listener registries and the like) starts afresh
@@ -323,11 +333,10 @@ func SrvWSConfig(withTLS bool) *lime.WebsocketConfig {
 // certificate that is valid around the bubble epoch (2000-01-01).
 func TLSConfigs() (*tls.Config, *tls.Config) {
 	tlsOnce.Do(func() {
-		pub, priv, err := ed25519.GenerateKey(rand.Reader)
-		if err != nil {
-			tlsGenErr = err
-			return
-		}
+		// (a fixed key: the certificate is the same in every process, so that a replay in a fresh
+		// process sees the same bytes on the wire as the run that found the violation)
+		priv := ed25519.NewKeyFromSeed([]byte("lime-go-verif-fixed-ed25519-seed"))
+		pub := priv.Public().(ed25519.PublicKey)
 		tmpl := &x509.Certificate{
 			SerialNumber:          big.NewInt(1),
 			Subject:               pkix.Name{CommonName: "localhost"},
